@@ -7,8 +7,14 @@ from fractions import Fraction
 
 import vlib
 
+# Proof modules in dependency order (compiled by coqc directly until they are listed in coq/_CoqProject):
+#   C21/PolyModel.v C21/PolySpec.v C21/PolyList.v C21/PolyDict.v C21/PolyKron.v C21/PolyProofs.v
 PROOF_MODULES = []
-OBLIGATIONS = []
+OBLIGATIONS = ["C21/P_%s.v" % n for n in (
+    "repr_int", "repr_rat", "degree_lc_int", "degree_lc_rat", "add_sub_neg_int", "add_sub_neg_rat",
+    "mul_generic_int", "mul_generic_rat", "kronecker_correct", "mul_upoly_int", "mul_upoly_rat",
+    "pow_int", "pow_rat", "eval_diff_int", "eval_diff_rat", "divides_int", "divides_rat",
+    "divides_complete_int", "divides_complete_rat", "loops_terminate", "nonvacuous")]
 
 W32 = 1 << 32
 
@@ -304,6 +310,23 @@ def explore(ctx, drv, model, cases, rts, search=False):
         return
     impl = ctx.run_lines(drv, cases + rts, timeout=1800)
     mod = ctx.run_lines(model, cases, timeout=1800) + [None] * len(rts)
+    # how many cases satisfy the hypotheses of the theorems (fits_u32 / pow_fits / divides_fits)
+    hyp = []
+    for c in cases:
+        t = c.split()
+        if t[0] == "I" and t[1] in ("mul", "kmul"):
+            hyp.append("I fits %s %s" % (t[2], t[3]))
+        elif t[1] == "pow":
+            hyp.append("%s powfits %s %s" % (t[0], t[2], t[3]))
+        elif t[1] == "div":
+            hyp.append("%s divfits %s %s" % (t[0], t[2], t[3]))
+    hv = ctx.run_lines(model, hyp, timeout=1800)
+    inside = sum(1 for x in hv if x == "1")
+    ctx.notes.append("%d of %d mul/pow/div cases were checked against the theorems' representation-limit hypotheses "
+                     "(fits_u32, pow_fits, divides_fits): %d satisfy them" % (len(hyp), len(hyp), inside))
+    if any(x not in ("0", "1") for x in hv):
+        ctx.broken.append({"kind": "correspondence", "name": "C21 hypothesis query",
+                           "detail": "model did not answer a fits query: %s" % [x for x in hv if x not in ("0", "1")][:3]})
     allc = cases + rts
     ctx.cov["evaluations"] += len(allc)
     ctx.cov["distinct_nontrivial"] += len(set(c for c in allc if nontrivial(c)))
